@@ -12,6 +12,7 @@ import (
 	"os"
 	"sort"
 	"strings"
+	"time"
 
 	"golang.org/x/tools/go/ssa"
 )
@@ -58,31 +59,35 @@ type loopRec struct {
 }
 
 type Exec struct {
-	prog       *ssa.Program
-	specs      *Contracts
-	obls       []*Obligation
-	axioms     []*Term            // global definitional assumptions (skolemised definitions)
-	defAxioms  map[string][]*Term // definitional axioms keyed by the symbol they define
-	discovery  int                // >0: loop modset discovery run, no obligations recorded
-	specMode   int                // >0: evaluating a spec function
-	specDefs   []*Term            // definedness conditions collected in spec mode
-	specAssert bool               // the spec being evaluated is being proved (not assumed)
-	specBase   int                // length of the path condition when the outermost spec evaluation started
-	curFn      string
-	usedSpecs  map[*FnSpec]bool   // contracts assumed at call sites of the functions verified so far
-	curLabels  []string
-	curInputs  []NamedValue
-	curEntry   *State
-	notes      map[string]bool // modelling notes / trusted functions actually used
-	paths      int
-	maxPaths   int
-	tids       map[string]int
-	tidTypes   []types.Type
-	siteSeen   map[string]int
-	globals    map[*ssa.Global]*Term
-	initState  *State // heap after package initialisers (immutable globals)
-	mutGlobal  map[*ssa.Global]bool
-	stack      []string
+	prog        *ssa.Program
+	specs       *Contracts
+	obls        []*Obligation
+	axioms      []*Term            // global definitional assumptions (skolemised definitions)
+	defAxioms   map[string][]*Term // definitional axioms keyed by the symbol they define
+	discovery   int                // >0: loop modset discovery run, no obligations recorded
+	specMode    int                // >0: evaluating a spec function
+	specDefs    []*Term            // definedness conditions collected in spec mode
+	specAssert  bool               // the spec being evaluated is being proved (not assumed)
+	specBase    int                // length of the path condition when the outermost spec evaluation started
+	curFn       string
+	atCallSeen  map[string]bool  // callees of at-call clauses that the function under verification actually calls
+	usedSpecs   map[*FnSpec]bool // contracts assumed at call sites of the functions verified so far
+	curLabels   []string
+	curInputs   []NamedValue
+	curEntry    *State
+	notes       map[string]bool // modelling notes / trusted functions actually used
+	paths       int
+	maxPaths    int
+	appendOwner *Loc          // the heap location the slice being appended to was read from (nil: a local value)
+	genLimit    time.Duration // wall-clock limit for generating the conditions of one function (fail-closed when exceeded)
+	genStart    time.Time
+	tids        map[string]int
+	tidTypes    []types.Type
+	siteSeen    map[string]int
+	globals     map[*ssa.Global]*Term
+	initState   *State // heap after package initialisers (immutable globals)
+	mutGlobal   map[*ssa.Global]bool
+	stack       []string
 
 	disc         *discCtx
 	discDepth    int
@@ -301,7 +306,7 @@ func (e *Exec) nilCheck(st *State, fr *Frame, p *PtrV, pos token.Pos) {
 func ghostStruct(t types.Type) (string, bool) {
 	if n, ok := t.(*types.Named); ok && n.Obj().Pkg() != nil {
 		switch n.Obj().Pkg().Path() + "." + n.Obj().Name() {
-		case "bytes.Buffer", "sync.Mutex", "sync.RWMutex", "bytes.Reader", "bufio.Reader", "bufio.Writer", "time.Time", "sync.Once", "log.Logger", "math/rand.Rand":
+		case "bytes.Buffer", "sync.Mutex", "sync.RWMutex", "bytes.Reader", "bufio.Reader", "bufio.Writer", "time.Time", "sync.Once", "log.Logger", "math/rand.Rand", "reflect.Value":
 			return n.Obj().Pkg().Path() + "." + n.Obj().Name(), true
 		}
 	}
@@ -613,6 +618,9 @@ func (e *Exec) runBlock(st *State, fr *Frame, b *ssa.BasicBlock, prev *ssa.Basic
 			}
 			if e.paths > e.maxPaths {
 				panic(unsupported(fmt.Sprintf("path limit %d exceeded in %s", e.maxPaths, e.curFn)))
+			}
+			if e.genLimit > 0 && (e.paths+e.specForks)%64 == 0 && time.Since(e.genStart) > e.genLimit {
+				panic(unsupported(fmt.Sprintf("condition generation for %s exceeded %v (%d paths, %d specification forks): too many paths to decide", e.curFn, e.genLimit, e.paths, e.specForks)))
 			}
 			st2 := st.Clone()
 			fr2 := fr.clone()
@@ -991,6 +999,9 @@ func (e *Exec) convert(st *State, fr *Frame, v Value, from, to types.Type, pos t
 	if isString(to) {
 		switch s := v.(type) {
 		case *SliceV:
+			if scalarSort(s.Elem).Width() != 8 {
+				panic(unsupported("conversion of " + s.Elem.String() + " slice to a string (UTF-8 encoding is not modelled)"))
+			}
 			data := st.arrayOf(s.Elem, comp{"", BV(8)}, s.Arr)
 			if !(s.Off.Op == "bvconst" && s.Off.Val == 0) {
 				data = ArrayCopy(zeroTerm(ArrSort(BV(64), BV(8))), BVConst(0, 64), data, s.Off, s.Len)
@@ -1004,6 +1015,9 @@ func (e *Exec) convert(st *State, fr *Frame, v Value, from, to types.Type, pos t
 	}
 	if sl, ok := tu.(*types.Slice); ok {
 		if s, ok := v.(*StrV); ok {
+			if scalarSort(sl.Elem()).Width() != 8 {
+				panic(unsupported("conversion of a string to " + sl.String() + " (UTF-8 decoding is not modelled)"))
+			}
 			c := Fresh("cap", BV(64))
 			st.Assume(BVUle(s.Len, c))
 			st.Assume(BVUle(c, BVConst(maxLen, 64)))
